@@ -68,10 +68,14 @@ def Arg.InRange : Arg → Prop
   | .nullStr => True
   | .float _ => True
 
-/-- every rendering libc produces for this argument fits the library's 64-byte buffer
-    (vacuous for non-floating arguments); see C13 for the arguments that do not -/
-def Arg.FloatFits : Arg → Prop
-  | .float r => ∀ plus prec cls, 0 < (r plus prec cls).length ∧ (r plus prec cls).length < 64
+/-- libc's `snprintf` reports a positive size for every rendering of this argument (vacuous for
+    non-floating arguments).  This is libc's contract for `%g %f %e %E` with any precision it can
+    carry out; it fails only in a region that lies outside the property's domain: a precision of
+    about 2^31 makes glibc return a negative value, and every precision ≥ 2^28 would need a result
+    beyond the documented 2^28-byte limit of `ST::string` anyway.  Nothing is assumed about the
+    *length* of the rendering: 64 bytes and more are rendered again into a heap buffer. -/
+def Arg.LibcRenders : Arg → Prop
+  | .float r => ∀ plus prec cls, 0 < (r plus prec cls).length
   | _ => True
 
 /-- the argument kinds the character class `c` applies to -/
